@@ -298,7 +298,198 @@ fn directed() -> Vec<Vec<(Op, u32)>> {
     ]
 }
 
+// ---------------------------------------------------------------------------------------------------------------
+// Class "real-daemon": the same kind of history on a REAL bus (a private dbus-daemon). Ground truth is what the daemon
+// itself lists for each name (ListQueuedOwners over an observer connection), read before and after every operation of
+// the connection under test; a second library connection plays the other process that takes names away and gives
+// them back. Nothing here depends on the scripted bus's model of dbus-daemon.
+
+#[cfg(not(miri))]
+mod real {
+    use super::{flags_from, held_str};
+    use crate::harness::bus::Held;
+    use crate::harness::realbus::*;
+    use serde_json::json;
+    use std::time::Duration;
+    use vcommon::Ctx;
+    use vref::prng::{fnv, Rng};
+    use zbus::blocking::Connection;
+    use zbus::fdo::RequestNameReply;
+
+    fn held(observer: &Connection, unique: &str, name: &str) -> Result<Option<Held>, String> {
+        let q = queued_owners(observer, name)?;
+        Ok(match q.iter().position(|u| u == unique) {
+            Some(0) => Some(Held::Owner),
+            Some(_) => Some(Held::Queued),
+            None => None,
+        })
+    }
+
+    /// The one answer consistent with what the bus held before and holds after a RequestName of the connection.
+    fn request_answer(before: Option<Held>, after: Option<Held>) -> &'static str {
+        match (before, after) {
+            (Some(Held::Owner), Some(Held::Owner)) => "AlreadyOwner",
+            (_, Some(Held::Owner)) => "PrimaryOwner",
+            (_, Some(Held::Queued)) => "InQueue",
+            (_, None) => "NameTaken",
+        }
+    }
+
+    fn do_request(a: &Connection, name: &str, flags: u32) -> String {
+        match a.request_name_with_flags(name, flags_from(flags)) {
+            Ok(RequestNameReply::PrimaryOwner) => "PrimaryOwner".into(),
+            Ok(RequestNameReply::InQueue) => "InQueue".into(),
+            Ok(RequestNameReply::AlreadyOwner) => "AlreadyOwner".into(),
+            Ok(RequestNameReply::Exists) => "NameTaken".into(),
+            Err(zbus::Error::NameTaken) => "NameTaken".into(),
+            Err(e) => format!("error: {e}"),
+        }
+    }
+
+    /// Returns Err for environment trouble (INCONCLUSIVE), Ok otherwise.
+    pub fn history(ctx: &mut Ctx, index: u64, rng: &mut Rng, daemon: &Daemon, observer: &Connection) -> Result<(), String> {
+        ctx.count("evaluations", 1);
+        ctx.count("class:real-daemon", 1);
+        let a = daemon.connect()?;
+        let b = daemon.connect()?;
+        let ua = a.unique_name().map(|u| u.to_string()).ok_or("no unique name")?;
+        let names: Vec<String> = ["One", "Two"].iter().map(|s| format!("t.n.H{index}.{s}")).collect();
+        let len = if ctx.thorough() { 8 + rng.usize_below(30) } else { 5 + rng.usize_below(16) };
+        let mut log: Vec<String> = Vec::new();
+        let mut requeued = vec![false; names.len()];
+        let mut shape = String::new();
+        for _ in 0..len {
+            let n = rng.usize_below(names.len());
+            let name = names[n].as_str();
+            let ctx_of = |requeued: &Vec<bool>| if requeued[n] { ":after-replacement-with-queueing" } else { "" };
+            let before = held(observer, &ua, name)?;
+            match rng.below(100) {
+                0..=29 => {
+                    let flags = rng.below(8) as u32;
+                    let got = do_request(&a, name, flags);
+                    let after = held(observer, &ua, name)?;
+                    let expect = request_answer(before, after);
+                    log.push(format!("A.request({name}, flags={flags:#x}) [bus held for A: {} -> {}] -> {got}", held_str(before), held_str(after)));
+                    shape.push_str(&format!("q{n}{flags}{}", held_str(before)));
+                    ctx.count("real_requests_checked", 1);
+                    if got != expect {
+                        // not a verdict yet: an ownership signal of an earlier step may still be on its way through the connection's
+                        // tasks. Let everything settle and ask the same again; only a disagreement that persists is reported.
+                        std::thread::sleep(Duration::from_secs(1));
+                        let before2 = held(observer, &ua, name)?;
+                        let got2 = do_request(&a, name, flags);
+                        let after2 = held(observer, &ua, name)?;
+                        let expect2 = request_answer(before2, after2);
+                        log.push(format!("  (settled 1 s, asked again) [bus held for A: {} -> {}] -> {got2}", held_str(before2), held_str(after2)));
+                        if got2 != expect2 {
+                            let reason = format!("bus-{}-reported-{}", held_str(before2), got2.split(':').next().unwrap_or("?"));
+                            ctx.finding(index, "request-result-disagrees-with-bus", &reason, &format!("real-daemon{}", ctx_of(&requeued)), json!({"history": log, "expected": expect2, "got": got2}));
+                            return Ok(());
+                        }
+                        ctx.count("real_transient_disagreements", 1);
+                    }
+                    if before.is_none() {
+                        requeued[n] = false;
+                    }
+                }
+                30..=49 => {
+                    let got = match a.release_name(name) {
+                        Ok(v) => v.to_string(),
+                        Err(e) => format!("error: {e}"),
+                    };
+                    let after = held(observer, &ua, name)?;
+                    let expect = before.is_some().to_string();
+                    log.push(format!("A.release({name}) [bus held for A: {} -> {}] -> {got}", held_str(before), held_str(after)));
+                    shape.push_str(&format!("r{n}{}", held_str(before)));
+                    ctx.count("real_releases_checked", 1);
+                    if got != expect {
+                        // whether the bus was asked shows in what it holds afterwards
+                        let via = if after.is_some() { "answered-locally" } else { "asked-bus" };
+                        ctx.finding(index, "release-result-disagrees-with-bus", &format!("bus-{}-reported-{}", held_str(before), got.split(':').next().unwrap_or("?")),
+                            &format!("{via}{}", ctx_of(&requeued)), json!({"history": log, "expected": expect, "got": got, "real_daemon": true}));
+                        return Ok(());
+                    }
+                    if after.is_some() {
+                        ctx.finding(index, "release-did-not-reach-the-bus", held_str(before), "-", json!({"history": log, "real_daemon": true}));
+                        return Ok(());
+                    }
+                    requeued[n] = false;
+                }
+                50..=79 => {
+                    // the other process asks for the name (possibly replacing A, which the daemon then re-queues unless A said DoNotQueue)
+                    let flags = rng.below(8) as u32;
+                    let r = b.request_name_with_flags(name, flags_from(flags)).map(|r| format!("{r:?}")).unwrap_or_else(|e| format!("{e}"));
+                    ping(&b)?;
+                    ping(&a)?;
+                    std::thread::sleep(Duration::from_millis(20));
+                    let after = held(observer, &ua, name)?;
+                    if before == Some(Held::Owner) && after == Some(Held::Queued) {
+                        requeued[n] = true;
+                        ctx.count("class:real-replaced-and-requeued", 1);
+                    }
+                    log.push(format!("B.request({name}, flags={flags:#x}) -> {r} [bus holds for A: {} -> {}]", held_str(before), held_str(after)));
+                    shape.push_str(&format!("Q{n}{flags}"));
+                }
+                _ => {
+                    let r = b.release_name(name).map(|r| r.to_string()).unwrap_or_else(|e| format!("{e}"));
+                    ping(&b)?;
+                    ping(&a)?;
+                    std::thread::sleep(Duration::from_millis(20));
+                    let after = held(observer, &ua, name)?;
+                    if before == Some(Held::Queued) && after == Some(Held::Owner) {
+                        ctx.count("class:real-queued-name-granted", 1);
+                    }
+                    log.push(format!("B.release({name}) -> {r} [bus holds for A: {} -> {}]", held_str(before), held_str(after)));
+                    shape.push_str(&format!("R{n}"));
+                }
+            }
+        }
+        ctx.distinct(fnv(&shape));
+        if index % 16 == 0 {
+            ctx.sample(json!({"real_daemon_history": log}));
+        }
+        Ok(())
+    }
+
+    pub fn run(ctx: &mut Ctx) {
+        let n = ctx.budget(420, 12000);
+        let daemon = match Daemon::start("c36") {
+            Ok(d) => d,
+            Err(e) => {
+                ctx.problem(&format!("C36 real-daemon class: {e}"));
+                return;
+            }
+        };
+        let observer = match daemon.connect() {
+            Ok(c) => c,
+            Err(e) => {
+                ctx.problem(&format!("C36 real-daemon class: {e}"));
+                return;
+            }
+        };
+        for k in 0..n {
+            let i = 3_000_000_000 + k;
+            if !ctx.want(i) {
+                continue;
+            }
+            let mut rng = ctx.rng(i);
+            let mut trouble = None;
+            ctx.guarded(i, "real-daemon", || json!({}), |ctx| {
+                if let Err(e) = history(ctx, i, &mut rng, &daemon, &observer) {
+                    trouble = Some(e);
+                }
+            });
+            if let Some(e) = trouble {
+                ctx.problem(&format!("C36 real-daemon history {i}: {e}"));
+                return;
+            }
+        }
+    }
+}
+
 pub fn run(ctx: &mut Ctx) {
+    #[cfg(not(miri))]
+    real::run(ctx);
     for (k, d) in directed().into_iter().enumerate() {
         let i = 2_000_000_000 + k as u64;
         if !ctx.want(i) {
